@@ -29,11 +29,11 @@ type Replay struct {
 }
 
 var (
-	rec      []NondetVal
-	pos      int
-	Failures []string
-	Reached  = map[string]bool{}
-	loaded   bool
+	rec       []NondetVal
+	pos       int
+	Failures  []string
+	Reached   = map[string]bool{}
+	loaded    bool
 	lastPanic string
 )
 
@@ -122,6 +122,12 @@ func IteU64(c bool, a, b uint64) uint64 {
 		return a
 	}
 	return b
+}
+func B2U(b bool) uint64 {
+	if b {
+		return 1
+	}
+	return 0
 }
 func BytesEq(a, b []byte) bool { return string(a) == string(b) }
 func StrEq(a, b string) bool   { return a == b }
